@@ -200,6 +200,29 @@ def alternatives(fa: FA, expr, at: int = None, _seen=None):
     return [(expr, at)]
 
 
+def value_cases(fa: FA, expr, at: int = None, _seen=None):
+    """Like `alternatives`, for values that may be BUILT UP after they are bound: a local that statements put
+    things into (`acc = []` ... `acc.append(x)`) stands for itself — its contents are part of its value flow, which
+    the literal it was bound to does not show."""
+    if at is None:
+        at = at_of(fa, expr)
+    seen = _seen if _seen is not None else set()
+    if isinstance(expr, ast.IfExp):
+        return value_cases(fa, expr.body, at, seen) + value_cases(fa, expr.orelse, at, seen)
+    if isinstance(expr, ast.Name) and fa.df.is_local(expr.id) and not any(nm == expr.id for (nm, _s, _v) in mutation_sites(fa)):
+        defs = fa.df.reaching(at, expr.id)
+        if defs and all(d.kind == "assign" and d.value is not None for d in defs):
+            out = []
+            for d in defs:
+                key = (d.node, d.name)
+                if key in seen:
+                    continue
+                seen.add(key)
+                out += value_cases(fa, d.value, d.node, seen)
+            return out
+    return [(expr, at)]
+
+
 def param_rooted(fa: FA, name_node, at: int, param: str) -> bool:
     """Does the Name hold the object bound to parameter `param` here (the parameter itself or a plain alias)?"""
     if not isinstance(name_node, ast.Name):
